@@ -173,12 +173,15 @@ structure Best (α : Type) where
   b : Nat
   d : α
 
+/-- one comparison of `get_smallest_distance`: keep the first pair with the strictly smallest squared distance -/
+def bestStep (sq : Nat → Nat → α) (a : Nat) (best : Option (Best α)) (b : Nat) : Option (Best α) :=
+  match best with
+  | none => some ⟨a, b, sq a b⟩
+  | some r => if sq a b < r.d then some ⟨a, b, sq a b⟩ else some r
+
 /-- `get_smallest_distance` (before the square root): the first pair with the strictly smallest squared distance -/
 def smallest (sq : Nat → Nat → α) (as bs : List Nat) : Option (Best α) :=
-  as.foldl (fun best a => bs.foldl (fun best b =>
-    match best with
-    | none => some ⟨a, b, sq a b⟩
-    | some r => if sq a b < r.d then some ⟨a, b, sq a b⟩ else some r) best) none
+  as.foldl (fun best a => bs.foldl (bestStep sq a) best) none
 
 /-- `group.get_interaction_atoms(other)` -/
 def interAtoms (p : SP α) (g other : GroupT α) : List Nat := if p.baseRes other.resType then g.iaBase else g.iaAcid
